@@ -154,3 +154,28 @@ pub fn verify(k: &[u8], msg: &[u8], sig: &[u8]) -> bool {
     };
     vk.verify(msg, &sig).is_ok()
 }
+
+/// Tokens an outsider can compute without ever talking to the node: the public token construction
+/// (CRC32C over the requester's IP and a secret, big-endian) evaluated with degenerate secrets, and a few
+/// other obvious derivations of the requester's address. None of them was issued by anybody.
+pub const GUESS_KINDS: u8 = 6;
+pub fn guessed_token(addr: SocketAddrV4, kind: u8) -> Vec<u8> {
+    let ip = addr.ip().octets();
+    let with_secret = |fill: u8| {
+        let mut d = ip.to_vec();
+        d.extend_from_slice(&[fill; 20]);
+        crate::crc32c::crc32c(&d).to_be_bytes().to_vec()
+    };
+    match kind % GUESS_KINDS {
+        0 => with_secret(0),
+        1 => with_secret(0xff),
+        2 => crate::crc32c::crc32c(&ip).to_be_bytes().to_vec(),
+        3 => crate::sha1::sha1(&ip)[..4].to_vec(),
+        4 => {
+            let mut d = ip.to_vec();
+            d.extend_from_slice(&addr.port().to_be_bytes());
+            crate::crc32c::crc32c(&d).to_be_bytes().to_vec()
+        }
+        _ => ip.to_vec(),
+    }
+}
